@@ -28,6 +28,8 @@ CPP_KEYS = [
     for e in ("any", "little", "big")
     for a in (0, 1)
     for c in ("vector", "minivec")
+    # the c++17-pmr shorthand sets the container options as a unit (C13): a user container does not apply there
+    if not (s == "c++17-pmr" and c == "minivec")
 ]
 
 
@@ -66,6 +68,8 @@ def job_strategy(draw, spec: dict) -> dict:
                     dom = "storage"
                 buf = mx + draw(st.sampled_from(spec.get("buf_extra", [0, 0, 1, 64])))
                 cases.append({"op": "S", "ti": ti, "words": valuegen.words_hex(valuegen.to_words(ct, v)), "prefill": draw(st.sampled_from(["00", "ff", "a5"])), "buf": buf, "dom": dom})
+            if spec.get("meta"):
+                cases.append({"op": "M", "ti": ti})
             if spec.get("n_small_buf", 0):
                 v = draw(valuegen.value_strategy(ct, storage=False))
                 w = valuegen.words_hex(valuegen.to_words(ct, v))
@@ -128,6 +132,8 @@ def draw_jobs(ctx: core.Ctx, n: int, spec: dict, seed_offset: int = 0) -> typing
 def command_for(case: dict, key: str, reduced: bool = False) -> typing.Optional[str]:
     """The command line a target receives for a case, or None if the case does not apply to that target."""
     lang = key.split("|")[0]
+    if case["op"] == "M":
+        return f"M {case['ti']}"
     if case["op"] == "S":
         if lang == "py" and case["dom"] != "range":
             return None
